@@ -41,8 +41,8 @@ FirstBadError(e, i) ==
   ELSE IF ~e.facts[i].names_path
        THEN "FAIL:message_does_not_name_path:" \o
             (IF AlphabetRootPath(e, i) THEN "validate.alphabet_error_root_path" ELSE "")
-  ELSE IF ~MessageWellFormed(e.errs[i], e.facts[i].msg)
-       THEN "FAIL:message_shape_or_path_wrong:"
+  ELSE IF ~MessageNamesPath(e.errs[i], e.facts[i].msg)
+       THEN "FAIL:message_names_another_path:"
   ELSE FirstBadError(e, i + 1)
 
 \* the errors of the validator used by substitution (d42/substitution/_validator.py)
@@ -80,7 +80,6 @@ VerdictC08(e) ==
   ELSE IF e.nerrs = 0 /\ e.vof # "true" THEN "FAIL:validate_or_fail_without_errors:"
   ELSE IF e.nerrs # 0 /\ e.vof # "exc" THEN "FAIL:validate_or_fail_with_errors:" \o SigRender(e)
   ELSE IF e.nerrs # 0 /\ e.vof_lines # e.nerrs THEN "FAIL:validate_or_fail_line_count:"
-  ELSE IF e.fmt_lines # (IF e.nerrs = 0 THEN 0 ELSE e.nerrs + 1) THEN "FAIL:format_result_line_count:"
   ELSE "OK"
 
 Verdict(e) == CASE Prop = "C02" -> VerdictC02(e) [] Prop = "C03" -> VerdictC03(e) [] Prop = "C08" -> VerdictC08(e)
@@ -100,6 +99,10 @@ Drift(e) ==
        \/ e.nerrs # Len(o.errs)
        \/ e.rep /\ \E i \in DOMAIN o.errs : ErrKey(o.errs[i]) # ErrKey(e.errs[i])
        \/ (Prop = "C03" /\ SubDrift(e))
+       \* wording of the messages (C03) and the header line of format_result (C08): what the
+       \* library does today, demanded by no property
+       \/ (Prop = "C03" /\ e.rep /\ \E i \in DOMAIN e.errs : ~MessageWellFormed(e.errs[i], e.facts[i].msg))
+       \/ (Prop = "C08" /\ SigRender(e) = "" /\ e.fmt_lines # (IF e.nerrs = 0 THEN 0 ELSE e.nerrs + 1))
 
 TraceNext == TraceStep(Verdict, Drift)
 
